@@ -1,5 +1,5 @@
 (* C15 property theorems: statements + `exact lemma` only. *)
-From CJ Require Import Common.Base C15.Model C15.Proofs C15.ModelName C15.ProofsName C15.ModelObf C15.ProofsObf C15.ModelAny C15.ProofsAny C15.ModelDns C15.ProofsDns C15.ModelExch C15.ProofsExch C15.ModelB32 C15.ProofsB32.
+From CJ Require Import Common.Base C15.Model C15.Proofs C15.ModelName C15.ProofsName C15.ModelObf C15.ProofsObf C15.ModelAny C15.ProofsAny C15.ModelDns C15.ProofsDns C15.ModelExch C15.ProofsExch C15.ModelB32 C15.ProofsB32 C15.ModelPb C15.ProofsPb.
 
 Theorem C15_request_format_roundtrip :
   forall p e, add_request_format p = Some e -> remove_request_format e = Some p.
@@ -271,3 +271,37 @@ Theorem C15_exchange_laws_b32 :
     exchange_laws b32_encode b32_decode cipher noise_write noise_read cs_encrypt cs_decrypt pub_of.
 Proof. exact exchange_laws_b32. Qed.
 Print Assumptions C15_exchange_laws_b32.
+
+(* ---- protobuf wire codec, concretely (model of google.golang.org/protobuf for the messages involved; compared
+   with proto.Marshal / proto.Unmarshal on every run).  Unknown fields are preserved, as Go does. ---- *)
+Theorem C15_varint_roundtrip : forall n rest, n < two64 -> varint_dec (varint_enc n ++ rest) = Some (n, rest).
+Proof. exact varint_roundtrip. Qed.
+Print Assumptions C15_varint_roundtrip.
+
+Theorem C15_pb_fields_roundtrip : forall fs, Forall field_wf fs -> dec_fields (enc_fields fs) = Ok fs.
+Proof. exact dec_fields_roundtrip. Qed.
+Print Assumptions C15_pb_fields_roundtrip.
+
+Theorem C15_pb_generic_roundtrip : forall m, generic_wf m -> unmarshal_generic (marshal_generic m) = Ok m.
+Proof. exact generic_roundtrip. Qed.
+Print Assumptions C15_pb_generic_roundtrip.
+
+Theorem C15_pb_prefix_roundtrip : forall m, prefix_wf m -> unmarshal_prefix (marshal_prefix m) = Ok m.
+Proof. exact prefix_roundtrip. Qed.
+Print Assumptions C15_pb_prefix_roundtrip.
+
+Theorem C15_pb_dtls_roundtrip : forall m, dtls_wf m -> unmarshal_dtls (marshal_dtls m) = Ok m.
+Proof. exact dtls_roundtrip. Qed.
+Print Assumptions C15_pb_dtls_roundtrip.
+
+Theorem C15_pb_any_roundtrip : forall m, any_wf m -> unmarshal_any (marshal_any m) = Ok m.
+Proof. exact any_roundtrip. Qed.
+Print Assumptions C15_pb_any_roundtrip.
+
+(* the URL-less packing over bytes: client marshals the parameters into an Any without type URL, the station
+   unmarshals the Any and unpacks it with UnmarshalAnypbTo into the type the transport expects *)
+Theorem C15_anypb_nourl_bytes_roundtrip :
+  forall m, pbmsg_wf m -> blen (pb_marshal m) < two64 ->
+    station_unpack (client_pack_nourl m) (pb_type_of m) = Ok (Some m).
+Proof. exact anypb_nourl_bytes_roundtrip. Qed.
+Print Assumptions C15_anypb_nourl_bytes_roundtrip.
